@@ -1,6 +1,7 @@
 package rules
 
 import (
+	"go/types"
 	"strings"
 
 	"golang.org/x/tools/go/ssa"
@@ -29,6 +30,9 @@ func init() {
 			{From: "C08.d", As: "C04.g", Why: "after DeleteRange the pointers must bound exactly the heights still stored: they move only with the deletion progress"},
 			{From: "C08.b", As: "C04.g", Why: "Has/HasAt/Get/GetByHeight agree after a deletion only if every tier (pending, caches, index, datastore) is purged"},
 			{From: "C14.b", Match: "removal-after-all-handlers", As: "C04.g", Why: "a cache purged before the OnDelete handlers ran is re-populated by a handler that reads the header, and then serves it after the deletion"},
+			{From: "C08.c", Match: "batch-cleanup", As: "C04.g", Why: "a deletion whose write batch is not committed leaves headers in the datastore that the caches, the pending batch and the pointers no longer know: Has/Get still find them while HasAt says no"},
+			{From: "C12.a", Match: "lookup-before-wait", As: "C04.a", Why: "every appended header is readable by height wherever it sits: a by-height read that waits for the published height without a full lookup first never finds a flushed header above a gap"},
+			{From: "C12.a", Match: "second-lookup-returned", As: "C04.a", Why: "see lookup-before-wait"},
 			{From: "C17.e", Match: "pointer-move-unconditional", As: "C04.c", Why: "Head is the top of the contiguous run only if every append round re-evaluates it, whatever range was appended"},
 		},
 	})
@@ -205,6 +209,30 @@ func runC04(c *an.Ctx) {
 				}
 			}
 			c.Check(okPhi, "C04.b", "one-step:"+what, "each step of the walk adopts the header found at exactly current.Height()"+delta+" (under a nil lookup error): the pointer cannot jump over a gap", fn, call, "lookup("+arg+")", nil)
+		}
+		// the walk is entered whenever the starting pointer was read and the context is alive, and it
+		// goes on after every hit (it stops at the first miss, not before)
+		{
+			var assume []an.Fact
+			an.Instrs(fn, func(in ssa.Instruction) {
+				call, ok := in.(*ssa.Call)
+				if !ok {
+					return
+				}
+				if cal := an.StaticCallee(&call.Call); cal != nil && an.FuncName(cal) == "store.(*Store)."+map[string]string{"+1": "Head", "-1": "Tail"}[delta] {
+					assume = append(assume, an.EQ(t.Of(call)+"#1", "nil"))
+				}
+				if call.Call.IsInvoke() && call.Call.Method.Name() == "Err" && types.TypeString(call.Call.Value.Type(), nil) == "context.Context" {
+					assume = append(assume, an.EQ(t.Of(call), "nil"))
+				}
+			})
+			for _, call := range calls {
+				pr := ff.Prune(assume...)
+				c.Check(pr.Reachable(call.Block()), "C04.b", "walk-entered:"+what, "with the starting pointer read and a live context the walk looks up the next height (it is not skipped)", fn, call, "", nil)
+				pr2 := ff.Prune(append(append([]an.Fact{}, assume...), an.EQ(t.Of(call)+"#1", "nil"))...)
+				again := (an.Flow{Fn: fn, Skip: pr2.Removed}).CanReach(call, call)
+				c.Check(again, "C04.b", "walk-continues:"+what, "after a hit (and with a live context) the walk looks up the next height again: it ends at the first miss, not earlier", fn, call, "", nil)
+			}
 		}
 		// the returned header is the loop-carried one
 		for _, r := range ff.Returns() {
